@@ -129,7 +129,10 @@ def rpy_of(q):
                      np.arctan2(2 * (w * z + x * y), 1 - 2 * (y * y + z * z))])
 
 
-def run_filter(cfg, kw, q0, G_, A, M, dip_deg):
+STATE_FORMS = ["array", "Quaternion", "array"]        # update() documents numpy.ndarray for the attitude: lists are not demanded
+
+
+def run_filter(cfg, kw, q0, G_, A, M, dip_deg, state_form="array"):
     """Run the real filter from initial attitude q0 over the history; returns (N,4)."""
     import ahrs
     kw = filt.resolve_kw(cfg, dip_deg, kw)
@@ -141,10 +144,10 @@ def run_filter(cfg, kw, q0, G_, A, M, dip_deg):
         return np.asarray(F.Complementary(G_, A, M, w0=w0, **kw).Q, float)
     if cfg.name == "FKF":
         return np.asarray(cfg.batch(G_, A, M, **kw), float)     # first sample carries the initial attitude
-    if cfg.q0_honoured:
+    if cfg.q0_honoured and not (state_form != "array" and cfg.streams and cfg.new):
         return np.asarray(cfg.batch(G_, A, M, q0=q0, **kw), float)
     inst = cfg.new(**kw)
-    return filt.stream(cfg, inst, q0, G_, A, M)
+    return filt.stream(cfg, inst, q0, G_, A, M, state_form=state_form)
 
 
 def check(case, ctx):
@@ -205,7 +208,15 @@ def check(case, ctx):
         if not ctx.returned(pre, clause="no-exception[earlier filter built from the same option arrays]"):
             filt.pool_changed()
             return
-    out = call(run_filter, cfg, kw, q0, G_, A, M, p["dip_deg"])
+    # the streamed filters are handed the attitude as a plain array, as the library's own Quaternion object (each returned attitude wrapped again)
+    sform = STATE_FORMS[(int(p["seed"]) // 3) % len(STATE_FORMS)]
+    out = call(run_filter, cfg, kw, q0, G_, A, M, p["dip_deg"], sform)
+    if sform != "array" and not out.ok and isinstance(out.exc, TypeError):
+        # update() documents a numpy.ndarray: a filter that refuses the object with a TypeError has answered; what is demanded is that it never
+        # takes the object and silently computes something else.  The case is then judged with the plain array.
+        ctx.note("attitude handed over as a %s object refused with a TypeError by %s: judged with the plain array" % (sform, cfg.name))
+        sform = "array"
+        out = call(run_filter, cfg, kw, q0, G_, A, M, p["dip_deg"], sform)
     if shared:
         bad = filt.pool_changed()
         if bad:
@@ -223,7 +234,7 @@ def check(case, ctx):
     idx = _idx(n_tot, N)
     e_start = err[0]
     tail = err[idx >= N]
-    detail = {"N": N, "tol_deg": np.degrees(tol), "e0_deg": p["e0_deg"], "units(acc, mag)": [ua, um], "err_deg@[0,N/4,N/2,N,1.25N,1.5N]":
+    detail = {"N": N, "tol_deg": np.degrees(tol), "e0_deg": p["e0_deg"], "units(acc, mag)": [ua, um], "attitude handed to update() as": sform, "err_deg@[0,N/4,N/2,N,1.25N,1.5N]":
               [round(float(np.degrees(err[np.searchsorted(idx, k)])), 5) for k in (0, N // 4, N // 2, N, int(1.25 * N), n_tot - 1)], "dip_deg": p["dip_deg"]}
     if cfg.name == "FKF" and abs(p["dip_deg"]) > 40.0:
         # FKF weights the heading by the horizontal field only: its convergence time grows without practical bound for steep dips
